@@ -71,7 +71,7 @@ fn main() {
         let w = WorldOpts {
             scenes,
             same_region: rng.chance(0.4),
-            preset: *rng.pick(&["random", "crossing", "convoy", "crowd", "lookalikes"]),
+            preset: *rng.pick(&["random", "crossing", "convoy", "crowd", "lookalikes", "pack"]),
             rotated: rng.chance(0.2),
             features: kind.is_visual(),
             feat_dim: 4,
